@@ -67,6 +67,11 @@ def impl(case):
                 out[o] = dict(name=r.name, wav=[float(x) for x in r.wav.to(u.micron).value], nu=[float(x) for x in r.nu.to(u.Hz).value],
                               flux=[[float(x) for x in row] for row in r.flux.to(unit).value], error=[[float(x) for x in row] for row in r.error.to(unit).value],
                               apertures=None if r.apertures is None else [float(x) for x in r.apertures.to(u.au).value], distance_kpc=float(r.distance.to(u.kpc).value))
+            # the same file read in another unit family, both orders: must be mirror images of each other
+            u2 = u.Unit(UNITS[(UNITS.index(case['unit']) + 2) % len(UNITS)])
+            ra, rb = SED.read(p, unit_flux=u2, order='nu'), SED.read(p, unit_flux=u2, order='wav')
+            out['other_unit'] = dict(unit=str(u2), nu_flux=[[float(x) for x in row] for row in ra.flux.to(u2).value], wav_flux=[[float(x) for x in row] for row in rb.flux.to(u2).value],
+                                     nu_err=[[float(x) for x in row] for row in ra.error.to(u2).value], wav_err=[[float(x) for x in row] for row in rb.error.to(u2).value])
         elif case['kind'] == 'cube':
             from sedfitter.sed import SEDCube
             c = SEDCube()
@@ -188,6 +193,12 @@ def judge(case, im, mo):
                 fail.append('optional: uncertainties %s but read back %s' % ('written' if case['with_unc'] else 'absent', 'absent' if r['unc'] is None else 'present'))
             if (case['aps'] is None) != (r['apertures'] is None):
                 fail.append('optional: apertures %r read back as %r' % (case['aps'], r['apertures']))
+    if 'other_unit' in im:
+        ou = im['other_unit']
+        for a, b in ((ou['nu_flux'], ou['wav_flux']), (ou['nu_err'], ou['wav_err'])):
+            if any(any(abs(x - y) > 1e-12 * abs(y) for x, y in zip(ra, reversed(rb))) for ra, rb in zip(a, b)):
+                fail.append('reverse: read in %s, the order=wav values are not the mirror image of the order=nu values' % ou['unit'])
+                break
     if im['nu']['wav'] != list(reversed(im['wav']['wav'])):
         fail.append('reverse: the two read orders are not mirror images of each other')
     return dict(disagree=disagree[:3], fail=fail[:4], nontrivial=nw >= 3, tags=tags)
